@@ -302,6 +302,8 @@ PROFILE_PDE = {"jump": False, "abs": False, "undef": False, "ufunc": False, "erf
                "rpow": False, "funcs": ["sin", "cos", "tanh", "exp", "sqrt", "log", "atan"]}
 
 NUMS = [1.0, 2.0, 3.0, 0.5, 0.25, 1.5, 2.5, 0.1, 0.3, 10.0, 4.0, 0.75, 7.0]
+#: 'nice' argument values (exact hits of jumps such as heaviside(x - 0.5))
+NICE = [0.5, 1.0, -0.5, 0.0, -1.0, 2.0, -2.0, 0.25, 1.5, 3.0, -3.0]
 
 
 def _num_strategy():
@@ -378,28 +380,65 @@ class Builder:
             return ["const", self.pick(["pi", "E"])]
         return self.num()
 
+    def exact_arg(self):
+        """``x - c`` with a variable x and a 'nice' c inside its range (exactly computed, so that the
+        value *at* a jump is judged when an argument value hits c; see :func:`jump_anchors`)"""
+        cands = [l for l in self.leaves if l[0] in ("var", "idx")]
+        if not cands:
+            return None
+        v = self.pick(cands)
+        lo, hi = self.ranges[v[1]]
+        nice = [c for c in NICE if lo <= c <= hi]
+        if not nice:
+            return None
+        c = self.pick(nice)
+        if c == 0:
+            return v
+        return ["sub", v, ["num", c]] if c > 0 else ["add", v, ["num", -c]]
+
     def guard(self, u, lo_req, hi_req, templates):
         """Return ``u`` if its interval lies in [lo_req, hi_req], else a wrapped version."""
         lo, hi = self.iv(u)
         if lo >= lo_req and hi <= hi_req:
             return u
-        cands = []
         big = size_of(u) > 6
         wide = expanded_terms(u) > 3
-        for t in templates:
-            if big and getattr(t, "dup", False):
-                continue  # templates that duplicate the term are reserved for small terms
-            if wide and not getattr(t, "flat", False):
-                continue  # no trigonometric function of a wide sum (sympy.simplify explodes)
-            try:
-                w = t(u)
-                wl, wh = self.iv(w)
-            except (DomainBug, OverflowError, ZeroDivisionError):
-                continue
-            if wl >= lo_req and wh <= hi_req:
-                cands.append(w)
+
+        def fitting(restrict):
+            cands = []
+            for t in templates:
+                if restrict and big and getattr(t, "dup", False):
+                    continue  # templates that duplicate the term are reserved for small terms
+                if restrict and wide and not getattr(t, "flat", False):
+                    continue  # no trigonometric function of a wide sum (sympy.simplify explodes)
+                try:
+                    w = t(u)
+                    wl, wh = self.iv(w)
+                except (DomainBug, OverflowError, ZeroDivisionError):
+                    continue
+                if wl >= lo_req and wh <= hi_req:
+                    cands.append(w)
+            return cands
+
+        cands = fitting(True)
         if not cands:
-            raise DomainBug(f"no guard template fits [{lo_req}, {hi_req}] for interval {(lo, hi)}")
+            # universal fallback: centre + amp*atan(u) always fits
+            if math.isinf(hi_req):
+                centre, amp = lo_req + 1.6, 1.0
+            elif math.isinf(lo_req):
+                centre, amp = hi_req - 1.6, 1.0
+            else:
+                centre, amp = 0.5 * (lo_req + hi_req), round(0.63 * 0.5 * (hi_req - lo_req), 4)
+            centre = round(centre, 4)
+            w = ["mul", ["num", amp], ["call", "atan", u]]
+            if centre > 0:
+                w = ["add", ["num", centre], w]
+            elif centre < 0:
+                w = ["sub", w, ["num", -centre]]
+            wl, wh = self.iv(w)
+            if not (wl >= lo_req and wh <= hi_req):
+                raise DomainBug(f"no guard fits [{lo_req}, {hi_req}] for interval {(lo, hi)}")
+            cands = [w] + fitting(False)
         return self.pick(cands)
 
     # guard templates (u -> AST); tanh is avoided here: sympy.simplify is very slow on
@@ -554,9 +593,10 @@ class Builder:
                 # a Mod node must not be able to become a factor of a product
                 res = ["call", self.pick(["sin", "cos", "tanh", "atan"]), res]
         elif k == "heav":
-            h0 = self.pick([0.5, 0.0, 1.0, None, 0.3, 0.75] if self.p.get("heav1", True) else
+            h0 = self.pick([0.3, 0.5, 0.0, 1.0, None, 0.75] if self.p.get("heav1", True) else
                            [0.0, 1.0, 0.3, 0.75])
-            res = ["heav", self.node(min(depth - 1, 1)), h0]
+            arg = self.exact_arg() if self.chance(1, 2) else None
+            res = ["heav", arg if arg is not None else self.node(min(depth - 1, 1)), h0]
         elif k == "ufunc":
             name = self.pick(sorted(UFUNCS))
             res = ["ufunc", name] + [self.node(depth - 1) for _ in range(UFUNCS[name][1])]
@@ -626,6 +666,12 @@ def asts(draw, varlist, constlist=(), profile=None, max_depth=5, min_depth=1, bu
     b = Builder(draw, leaves, ranges, profile, budget)
     if cmp_top and draw(st.sampled_from([False] * 7 + [True])):
         op = draw(st.sampled_from(CMP_OPS))
+        ea = b.exact_arg() if draw(st.booleans()) else None
+        if ea is not None:  # e.g. `x - 0.5 >= 0`, `x <= 1.5`: judged exactly, also at equality
+            if ea[0] in ("add", "sub") and draw(st.booleans()):
+                rhs = ea[2] if ea[0] == "sub" else ["neg", ea[2]]
+                return ["cmp", op, ea[1], rhs] if rhs[0] == "num" else ["cmp", op, ea, ["num", 0.0]]
+            return ["cmp", op, ea, ["num", 0.0]]
         return ["cmp", op, b.node(depth - 1, root=True), b.node(depth - 1)]
     return b.node(depth, root=True)
 
@@ -817,6 +863,9 @@ class Renderer:
             return self.binop("/", a, b, P_MUL)
         if k == "pow":
             n = int(ast[2])
+            if self.unicode_ops and n in (2, 3) and not self.plain and rnd.random() < 0.4:
+                self.used_alt.add("unicode-power")
+                return self.wrap(self.r(ast[1]), P_POW, strict=True) + ("²" if n == 2 else "³"), P_POW
             e = (str(n), P_ATOM if n >= 0 else P_NEG)
             if n < 0 and rnd.random() < 0.5 and not self.plain:
                 e = (f"({n})", P_ATOM)
@@ -858,11 +907,18 @@ class Renderer:
         if k in ("ufunc", "op"):
             args = [self.r(c)[0] for c in ast[2:]]
             name = ast[1]
-            if k == "op" and self.unicode_ops and not self.plain:
-                if name == "laplace" and rnd.random() < 0.5:
-                    self.used_alt.add("unicode-op")
-                    inner = args[0] if ast[2][0] in ("var",) else f"({args[0]})"
-                    return f"∇²{inner}", P_ATOM if ast[2][0] == "var" else P_ATOM
+            if k == "op" and self.unicode_ops and not self.plain and rnd.random() < 0.5:
+                # short notations documented for PDE right-hand sides
+                simple = ast[2][0] == "var"
+                if name == "laplace":
+                    self.used_alt.add("unicode-laplace")
+                    lap = rnd.choice(["∇²", "∇**2"])
+                    if simple and rnd.random() < 0.6:
+                        return f"{lap}{' ' if lap.endswith('2') else ''}{self.names.get(ast[2][1], ast[2][1])}", P_ATOM
+                    return f"{lap}({self.r(ast[2])[0]})", P_ATOM
+                if name == "gradient_squared" and simple:
+                    self.used_alt.add("unicode-gradient-squared")
+                    return f"|∇{self.names.get(ast[2][1], ast[2][1])}|" + rnd.choice(["²", "**2"]), P_POW
             return f"{name}({(', ' if self.space else ',').join(args)})", P_ATOM
         if k == "cmp":
             return self.binop(ast[1], self.r(ast[2]), self.r(ast[3]), P_CMP)
@@ -904,6 +960,44 @@ def exact_form(ast):
     if k in ("add", "sub"):
         return exact_form(ast[1]) and exact_form(ast[2])
     return False
+
+
+def jump_anchors(ast, acc=None):
+    """argument values that put an exactly computed jump argument on its jump: list of
+    ``(name, index|None, value)`` for heaviside/floor/ceiling/comparison nodes over ``x``, ``x - c``,
+    ``x + c``, ``c - x``, ``-x``"""
+    acc = [] if acc is None else acc
+
+    def solve(a, target=0.0):
+        k = a[0]
+        if k == "var":
+            return (a[1], None, target)
+        if k == "idx":
+            return (a[1], int(a[2]), target)
+        if k == "neg":
+            return solve(a[1], -target)
+        if k in ("add", "sub") and a[2][0] == "num" and _exact_num(a[2][1]):
+            c = float(a[2][1])
+            return solve(a[1], target - c if k == "add" else target + c)
+        if k in ("add", "sub") and a[1][0] == "num" and _exact_num(a[1][1]):
+            c = float(a[1][1])
+            return solve(a[2], target - c) if k == "add" else solve(a[2], c - target)
+        return None
+
+    k = ast[0]
+    found = None
+    if k == "heav" and exact_form(ast[1]):
+        found = solve(ast[1])
+    elif k == "call" and ast[1] in ("floor", "ceiling") and exact_form(ast[2]):
+        found = solve(ast[2], 1.0)
+    elif k == "cmp" and exact_form(ast[2]) and exact_form(ast[3]):
+        found = solve(["sub", ast[2], ast[3]]) if ast[3][0] == "num" else None
+    if found is not None:
+        acc.append(found)
+    for c in ast[1:]:
+        if isinstance(c, list):
+            jump_anchors(c, acc)
+    return acc
 
 
 class Val:
@@ -1112,9 +1206,6 @@ def evaluate_ast(ast, env, wrt=None, shape=None):
 # =========================================================================================
 # argument values
 # =========================================================================================
-NICE = [0.0, 0.5, -0.5, 1.0, -1.0, 2.0, -2.0, 0.25, 1.5, 3.0, -3.0]
-
-
 def values_in_range(seed, shape, lo, hi, nice=0.3):
     """Deterministic values in [lo, hi]: uniform draws, a fraction replaced by 'nice' values
     (so that exact hits of jumps such as ``heaviside(x - 0.5)`` occur)."""
